@@ -2336,7 +2336,7 @@ class Engine(object):
                 for k in set(a.ghost) | set(b.ghost):
                     if k.startswith("__"):
                         gh[k] = base.ghost.get(k, a.ghost.get(k, b.ghost.get(k)))     # engine bookkeeping (iteration-start values)
-                    elif k == "_warnings":
+                    elif k in ("_warnings", "_warnings_at"):
                         # the warnings issued so far are part of the outcome: branches that issued different ones are kept apart
                         if tuple(a.ghost.get(k, ())) != tuple(b.ghost.get(k, ())):
                             raise EngineError("different warnings on the two branches")
